@@ -669,6 +669,10 @@ impl World {
                         let rn = self.rid_name(id);
                         active.push(json!([self.id_name(&na.node_id), self.addr_name(&na.socket_addr), rn, int, hs, re, init]));
                     }
+                    // requests of the handler's own that were queued without reaching the wire get their names now (creation order)
+                    for id in s.pending_internal.iter() {
+                        let _ = self.rid_name(id);
+                    }
                     let pending: Vec<Value> = s.pending.iter().map(|(na, n)| json!([self.id_name(&na.node_id), self.addr_name(&na.socket_addr), n])).collect();
                     snap = json!({"sessions": sessions, "chal": chal, "active": active, "nonces": s.nonce_mappings, "pending": pending});
                 }
